@@ -14,6 +14,12 @@ from . import prov as P
 
 EXTRA_VALIDATORS = ["check::get_not_depended_on_nonterminals", "check::get_nonterminals_resolution_order", "check::check_subword_spaces", "regex::Regex::check_subwords",
                     "regex::Regex::check_ambiguities", "dfa::DFA::check_ambiguity_best_effort", "check::get_nonterm_refs", "regex::Regex::check_ambiguous_inputs_tail_only_subword"]
+# algorithmic cores: not validators, but every element they skip changes the result (a splitter symbol not processed, a state not
+# completed, a position left out of a follow set ...); their exemptions are enumerated in the same table
+CORES = ["dfa::do_minimize", "dfa::find_bounds", "dfa::keep_only_states_with_input_transitions", "dfa::eliminate_nonaccepting_states_without_output_transitions",
+         "dfa::renumber_states", "dfa::DFA::make_transitions_image", "dfa::hashmap_transitions_from_vec", "dfa::dfa_from_regex",
+         "regex::do_firstpos", "regex::do_lastpos", "regex::do_followpos", "regex::RegexNode::nullable"]
+EXTRA_VALIDATORS = EXTRA_VALIDATORS + CORES
 DROPPERS = {"filter", "take_while", "skip_while", "skip", "take", "step_by", "retain", "dedup_by_key", "dedup"}
 
 
@@ -23,22 +29,127 @@ def norm(p_text):
     return t
 
 
+def _proj(proj):
+    out = ""
+    for st in proj:
+        if st[0] == "tuple":
+            out += f".{st[1]}"
+        elif st[0] == "variant":
+            out += f"::{st[1].split('::')[-1]}.{st[2]}"
+        elif st[0] == "slice":
+            out += f"[{st[1]}]"
+    return out
+
+
+def _head(e):
+    while e is not None and e["k"] in ("Ref", "Unary", "Try", "Cast"):
+        e = e["expr"]
+    if e is None:
+        return "?"
+    if e["k"] == "Call" and e["func"]["k"] == "Path":
+        return e["func"]["path"].split("::")[-1]
+    if e["k"] == "MethodCall":
+        return e["method"]
+    if e["k"] == "Macro":
+        return e["name"] + "!"
+    if e["k"] == "Struct":
+        return e["path"]
+    if e["k"] == "Block":
+        last = None
+        for st in e["stmts"]:
+            last = st["expr"] if st["k"] == "ExprStmt" and not st["semi"] else None
+        return _head(last) if last is not None else "block"
+    if e["k"] == "Path":
+        return e["path"].split("::")[-1] if "::" in e["path"] else "local"
+    return e["k"].lower()
+
+
+def render(e, env, budget=3):
+    """Name-free, bounded rendering of an expression: parameters by position, typed locals by their declared type, other locals
+    by (a bounded rendering of) what they were computed from, loop variables / closure parameters as elem[<iterable>]."""
+    if e is None:
+        return "-"
+    k = e["k"]
+    if k == "Path":
+        name = e["path"]
+        if "::" in name:
+            return name
+        df = env.get(name) if env else None
+        if df is None:
+            return name
+        return render_def(df, budget)
+    if k in ("Ref", "Paren"):
+        return render(e["expr"], env, budget)
+    if k == "Unary":
+        return render(e["expr"], env, budget) if e["op"] == "*" else e["op"] + render(e["expr"], env, budget)
+    if k == "MethodCall":
+        if e["method"] in A.TRANSPARENT_METHODS and not e["args"]:
+            return render(e["recv"], env, budget)
+        args = ", ".join("<closure>" if a["k"] == "Closure" else render(a, env, budget) for a in e["args"])
+        return f"{render(e['recv'], env, budget)}.{e['method']}({args})"
+    if k == "Call":
+        f = e["func"]["path"].split("::")[-1] if e["func"]["k"] == "Path" else "?"
+        return f + "(" + ", ".join(render(a, env, budget) for a in e["args"]) + ")"
+    if k == "Lit":
+        return repr(e["v"])
+    if k == "Field":
+        return render(e["base"], env, budget) + "." + str(e["member"])
+    if k == "Index":
+        return render(e["base"], env, budget) + "[" + render(e["index"], env, budget) + "]"
+    if k == "Cast":
+        return render(e["expr"], env, budget)
+    if k == "Binary":
+        return "(" + render(e["left"], env, budget) + " " + e["op"] + " " + render(e["right"], env, budget) + ")"
+    if k in ("Tuple", "Array"):
+        return "(" + ", ".join(render(x, env, budget) for x in e.get("elems") or []) + ")"
+    if k == "Try":
+        return render(e["expr"], env, budget) + "?"
+    if k == "Macro":
+        return e["name"] + "!"
+    if k == "Range":
+        return render(e.get("start"), env, budget) + ".." + render(e.get("end"), env, budget)
+    return "<" + _head(e) + ">"
+
+
+def render_def(df, budget):
+    pj = _proj(df.proj)
+    if df.kind == "param":
+        return f"param#{df.extra}{pj}"
+    node = df.node
+    if df.kind in ("let", "bind"):
+        pat = (node or {}).get("pat") or {}
+        if df.kind == "let" and pat.get("k") == "PType":
+            return "<" + A.norm_ty(pat["ty"]) + ">" + pj
+        if df.init is None:
+            return "<uninit>" + pj
+        if budget <= 0:
+            return "<" + _head(df.init) + ">" + pj
+        inner = render(df.init, df.env, budget - 1)
+        if df.kind == "let" and pat.get("k") == "PIdent" and pat.get("mut"):
+            return "<mut:" + inner + ">" + pj
+        return inner + pj
+    if df.kind == "elem":
+        if budget <= 0:
+            return "elem[<" + _head(df.init) + ">]" + pj
+        return "elem[" + render(df.init, df.env, budget - 1) + "]" + pj
+    if df.kind == "closure":
+        return f"closure-param#{df.extra}{pj}"
+    return "?"
+
+
 def cond_key(repo, fn, envs, cond):
     """structural text of a condition expression"""
     if cond is None:
         return "always"
+    env = envs.get(id(cond))
     if cond["k"] == "Let":
-        pat = "".join(repo.text(fn.file, cond["pat"]).split())
-        return f"let {pat} = " + norm(A.show(A.resolve(cond["expr"], envs.get(id(cond)) or envs.get(id(cond["expr"])))))
+        pat = re.sub(r"\b[a-z_][a-z0-9_]*\b(?!::|\{|\()", "_", "".join(repo.text(fn.file, cond["pat"]).split()))
+        return f"let {pat} = " + render(cond["expr"], env or envs.get(id(cond["expr"])))
     if cond["k"] == "Binary" and cond["op"] in ("&&", "||"):
         return "(" + cond_key(repo, fn, envs, cond["left"]) + f" {cond['op']} " + cond_key(repo, fn, envs, cond["right"]) + ")"
     if cond["k"] == "Unary" and cond["op"] == "!":
         return "!" + cond_key(repo, fn, envs, cond["expr"])
-    if cond["k"] == "Binary":
-        l = norm(A.show(A.resolve(cond["left"], envs.get(id(cond["left"])) or envs.get(id(cond)))))
-        r = norm(A.show(A.resolve(cond["right"], envs.get(id(cond["right"])) or envs.get(id(cond)))))
-        return f"({l} {cond['op']} {r})"
-    return norm(A.show(A.resolve(cond, envs.get(id(cond)))))
+    return render(cond, env)
 
 
 def closure_key(repo, fn, envs, clo):
@@ -68,13 +179,7 @@ def local_tags(repo, fn):
 
 def exemptions(repo, fn):
     """[(kind, key text, line)]"""
-    out = []
-    tags = local_tags(repo, fn)
-    for kind, key, line in _exemptions(repo, fn):
-        for name, tag in tags.items():
-            key = re.sub(rf"(?<![\w.#<]){re.escape(name)}(?![\w(<])", tag, key)
-        out.append((kind, key, line))
-    return out
+    return list(_exemptions(repo, fn))
 
 
 def _exemptions(repo, fn):
@@ -89,8 +194,8 @@ def _exemptions(repo, fn):
         while id(cur) in pm:
             par, key = pm[id(cur)]
             if par["k"] == "Local" and key == "else":
-                pat = "".join(repo.text(fn.file, par["pat"]).split())
-                init = norm(A.show(A.resolve(par.get("init"), envs.get(id(par.get("init"))) or envs.get(id(par))))) if par.get("init") is not None else "?"
+                pat = re.sub(r"\b[a-z_][a-z0-9_]*\b(?!::|\{|\()", "_", "".join(repo.text(fn.file, par["pat"]).split()))
+                init = render(par.get("init"), envs.get(id(par.get("init"))) or envs.get(id(par))) if par.get("init") is not None else "?"
                 return f"unless let {pat[:60]} = {init}"
             if par["k"] in ("ForLoop", "While", "Loop", "Closure", "Fn"):
                 return None
@@ -107,7 +212,7 @@ def _exemptions(repo, fn):
                 c = cond_key(repo, fn, envs, g["cond"])
                 gs.append(c if role == "then" else f"!({c})")
             elif g["k"] == "Arm":
-                gs.append("arm " + "".join(repo.text(fn.file, g["pat"]).split())[:80])
+                gs.append("arm " + re.sub(r"\b[a-z_][a-z0-9_]*\b(?!::|\{|\()", "_", "".join(repo.text(fn.file, g["pat"]).split()))[:80])
             elif g["k"] in ("ForLoop", "While", "Loop", "Closure"):
                 break
         return " & ".join(gs) if gs else "always"
@@ -115,9 +220,19 @@ def _exemptions(repo, fn):
     for n in A.walk(fn.body):
         k = n["k"]
         if k in ("Continue", "Break"):
-            # let-else / if guard
-            par = pm.get(id(n))
-            out.append((k.lower(), guard_chain(n), n["l"]))
+            # which loop it targets: ^0 = innermost enclosing loop, ^1 = the next one out, ... (labels resolved)
+            loops = []
+            cur = n
+            while id(cur) in pm:
+                cur = pm[id(cur)][0]
+                if cur["k"] in ("ForLoop", "While", "Loop"):
+                    loops.append(cur)
+                if cur["k"] == "Closure":
+                    break
+            depth = 0
+            if n.get("label"):
+                depth = next((i for i, l in enumerate(loops) if l.get("label") == n["label"]), -1)
+            out.append((f"{k.lower()}^{depth}", guard_chain(n), n["l"]))
         elif k == "Return":
             e = n.get("expr")
             txt = "".join(repo.text(fn.file, e).split()) if e is not None else ""
@@ -128,7 +243,12 @@ def _exemptions(repo, fn):
             if clo:
                 out.append((n["method"], closure_key(repo, fn, envs, clo[0]), n["l"]))
             else:
-                out.append((n["method"], "(" + ", ".join(norm(A.show(A.resolve(a, envs.get(id(n))))) for a in n["args"]) + ")", n["l"]))
+                out.append((n["method"], "(" + ", ".join(render(a, envs.get(id(n))) for a in n["args"]) + ")", n["l"]))
+        elif k in ("If", "While") and not (k == "If" and A.diverges(n["then"])):
+            # a positive guard: the effect below happens only under this condition (strengthening it skips elements silently)
+            if k == "If" and id(n) in pm and pm[id(n)][0]["k"] == "If" and pm[id(n)][1] == "else":
+                pass  # else-if chains are keyed by their own condition as well
+            out.append(("guard" if k == "If" else "while", cond_key(repo, fn, envs, n["cond"]), n["l"]))
         elif k in ("Call", "Struct") :
             path = (n["func"].get("path", "") if k == "Call" and n["func"]["k"] == "Path" else (n.get("path", "") if k == "Struct" else ""))
             if path.startswith("Error::"):
@@ -147,7 +267,7 @@ _EXTRA_MOVED = ["check::get_not_depended_on_nonterminals", "check::get_nontermin
                     "regex::Regex::check_ambiguities", "dfa::DFA::check_ambiguity_best_effort", "check::get_nonterm_refs"]
 
 
-def skips_rule(repo, res, table, only=None, rule="SKIPS"):
+def skips_rule(repo, res, table, only=None, rule="SKIPS", exclude=()):
     """table: list of {fn, kind, key, why}.  Reports every exemption of a validator that is not listed; a listed exemption that is
     no longer found is only noted (removing an exemption makes the validator stricter, which no property here forbids)."""
     vs = validators(repo, extra=EXTRA_VALIDATORS)
@@ -157,7 +277,7 @@ def skips_rule(repo, res, table, only=None, rule="SKIPS"):
     n = 0
     seen = set()
     for q, f in sorted(vs.items()):
-        if only is not None and q not in only:
+        if (only is not None and q not in only) or q in exclude:
             continue
         for kind, key, line in exemptions(repo, f):
             n += 1
@@ -166,7 +286,7 @@ def skips_rule(repo, res, table, only=None, rule="SKIPS"):
             row = allowed.get(k)
             res.check(row is not None, rule, f"{rule}:{q}:{kind}:{key[:120]}", (f"listed exemption: {row['why']}" if row else f"`{kind}` under `{key[:160]}` is not among the exemptions confirmed for this validator: elements it lets through are no longer checked (a mistake there is accepted, or a guard that keeps a later pass safe is skipped)"), f"{f.file}:{line}")
     for k, r in allowed.items():
-        if (only is None or k[0] in only) and k not in seen:
+        if (only is None or k[0] in only) and k[0] not in exclude and k not in seen:
             res.advisory(f"SKIPS: listed exemption no longer present in {k[0]}: {k[1]} {k[2][:80]}")
     return n
 
